@@ -7,10 +7,15 @@
 (* a getter goroutine interleaved with it, one write-back taken apart into *)
 (* its system calls with a crash possible between any two of them.         *)
 (* (RlRestat is enabled only in the design StampAt = "after".)             *)
+(* Further: the file deleted and created again between any two steps       *)
+(* (Deletes), the map replaced by the defaults taken apart into its        *)
+(* critical section(s), observers added under a new and under an existing  *)
+(* name at any time (MaxObs further observers over the names n1, n2), and  *)
+(* an environment that has a variable named like key a.                    *)
 (***************************************************************************)
 EXTENDS FileConfig
 
-CONSTANTS MaxSec, MaxMod
+CONSTANTS MaxSec, MaxMod, MaxObs, Deletes, WriteBacks
 
 a  == <<97>>
 b  == <<98>>
@@ -26,14 +31,22 @@ Files == { <<Cm, KvLine(a, v1)>>,
 
 KVs == { (a :> v2), (b :> v1), (a :> <<>>), (a :> v2) @@ (b :> v2) }
 
-MCInit == Init0(<<Cm, KvLine(a, v1)>>, NoOpt)
+\* observer 0 registered as n1; the environment has a=2; the defaults are a=1
+MCOpt == [pre |-> <<>>, suf |-> <<>>, excl |-> {}, reg |-> ("n1" :> 0), lst |-> <<0>>, env |-> (a :> v2), defs |-> (a :> v1)]
+MCInit == Init0(<<Cm, KvLine(a, v1)>>, MCOpt)
+
+\* the next observer object: numbered in the order of the Add calls
+NextObs == 1 + CHOOSE x \in Ids : \A y \in Ids : y <= x
 
 MCNext ==
   \/ \E L \in Files : modn < MaxMod /\ Edit(L)
   \/ Tick(MaxSec) /\ UNCHANGED cvars
-  \/ RlStat \/ RlParse \/ RlRestat \/ RlApplyBegin \/ RlApplyEnd \/ RlNotify
+  \/ Deletes /\ modn < MaxMod /\ Delete
+  \/ RlStat \/ RlParse \/ RlParseFail \/ RlRestat \/ RlApplyBegin \/ RlApplyEnd \/ RlNotify
+  \/ RlGoneBegin \/ RlGoneEnd
   \/ Get
-  \/ \E kv \in KVs : modn + 3 <= MaxMod /\ Len(data) < 3 /\ SvBegin(kv)
+  \/ \E n \in {"n1", "n2"} : NextObs <= MaxObs /\ ObsAdd(n, NextObs)
+  \/ \E kv \in KVs : WriteBacks /\ modn + 3 <= MaxMod /\ Len(data) < 3 /\ SvBegin(kv)
   \/ SvStep \/ SvEnd \/ SvCrash
 
 MCSpec == MCInit /\ [][MCNext]_vars
@@ -43,5 +56,5 @@ WriteReadBackMem ==
   (fresh /\ ~Dead /\ w.pc = "done") => \A k \in DOMAIN wkv : wkv[k] # <<>> => (k \in DOMAIN mem /\ mem[k] = wkv[k])
 
 \* the observers are told after the map was updated, never before
-NotifyAfterApply == [][nnote' > nnote => (note' = mem /\ mem' = mem /\ rl.todo = {})]_vars
+NotifyAfterApply == [][nnote' > nnote => ((\A i \in Ids : note'.m[i] = mem) /\ mem' = mem /\ rl.todo = {})]_vars
 =============================================================================
